@@ -127,6 +127,58 @@ RULES = {
 }
 
 
+def toolchain_queries(facts):
+    """Things whose answer belongs to one version of the standard library rather than to the language: the size /
+    alignment / name / id of library types, and the internals of the library's opaque error types (what they contain,
+    whether two of them compare equal).  The analysis interprets the nightly's `core`; users link the stable one."""
+    import re
+    out = []
+    OPAQUE = re.compile(r'^(core|std|alloc)::(num::error::|num::(TryFromIntError|ParseIntError|IntErrorKind|ParseFloatError)|char::(CharTryFromError|'
+                        r'ParseCharError|TryFromCharError|DecodeUtf16Error)|str::(Utf8Error|ParseBoolError)|array::TryFromSliceError|'
+                        r'any::TypeId|panic::Location|alloc::Layout|alloc::layout::Layout)')
+    QUERY = re.compile(r'^(core|std)::(mem::(size_of|align_of|size_of_val|align_of_val|discriminant|needs_drop)|any::(type_name|type_name_of_val)|'
+                       r'any::TypeId::of|intrinsics::(size_of|align_of|type_name|type_id|needs_drop|variant_count))')
+
+    def walk_ty(t, acc):
+        if not isinstance(t, dict):
+            return
+        if t.get('k') == 'adt' and OPAQUE.match(t.get('path', '')):
+            acc.add(t['path'])
+        for k in ('args', 'elems', 'upvars'):
+            for x in t.get(k, []) or []:
+                walk_ty(x, acc)
+        for k in ('to', 'elem'):
+            if k in t:
+                walk_ty(t[k], acc)
+    items = [f for f in facts['fns'] if not f.get('derived')] + [dict(c, promoted=[]) for c in facts.get('const_bodies', [])]
+    for f in items:
+        types, queries = set(), set()
+        for body in [f['body']] + f.get('promoted', []):
+            for l in body['locals']:
+                walk_ty(l['ty'], types)
+            for bb in body['blocks']:
+                t = bb['term']
+                if t['k'] == 'call':
+                    fn = t['fn'].get('fn') or {}
+                    pth = (fn.get('resolved') or {}).get('path') or fn.get('path', '')
+                    if QUERY.match(pth):
+                        nonlocal_arg = any(a.get('k') != 'adt' or not a.get('local') for a in fn.get('args', [])) or not fn.get('args')
+                        if nonlocal_arg:
+                            queries.add(pth)
+                for st_ in bb['stmts']:
+                    if st_['k'] == 'assign' and st_['rv']['k'] == 'other' and re.search(r'\b(SizeOf|AlignOf|OffsetOf)\b', st_['rv'].get('s', '')):
+                        queries.add(st_['rv']['s'][:60])
+        for x in sorted(types):
+            out.append(('library-internals %s in %s' % (x.split('::')[-1], f['path'].split('::')[-1]),
+                        '%s (at %s) handles values of the library type %s, whose contents and equality are internal to one version of the '
+                        'standard library: behaviour may differ between the analysed nightly and the users\' stable toolchain; fails closed' % (f['path'], f['sp'], x)))
+        for x in sorted(queries):
+            out.append(('layout-query %s in %s' % (x.split('::')[-1], f['path'].split('::')[-1]),
+                        '%s (at %s) asks for %s of a non-local type: the answer belongs to the toolchain, not to the crate; fails closed' % (f['path'], f['sp'], x)))
+    # constants and statics too
+    return out
+
+
 def shadow_hazards(facts):
     """A trait method that a downstream `value.method(..)` call binds to *instead of* the inherent method of the same
     name: method probing tries `&T` receivers (inherent, then trait methods) before `&mut T`, so a trait implemented for
@@ -272,6 +324,8 @@ def run(prop, tier):
                 rep.finding('BUILD-LINK fixed-name symbols %s' % ','.join(sorted(linked))[:120],
                             'functions %s are exported under fixed symbol names (no_mangle / export_name / link_section): they can replace '
                             'compiler or runtime support routines at link time, which no MIR-level analysis sees; fails closed' % sorted(linked))
+            for tq in toolchain_queries(facts):
+                rep.finding('BUILD-TOOLCHAIN ' + tq[0], tq[1])
             for hz in shadow_hazards(facts):
                 rep.finding('API-SHADOW ' + hz[0], hz[1])
             if facts.get('_build_script'):
